@@ -115,9 +115,9 @@ SOCKET SocketAsyncImpl::DriverGetFd() const
   return buff->sock->fd;
 }
 
-void SocketAsyncImpl::DriverQuery(short &events)
+bool SocketAsyncImpl::DriverQuery(short &events)
 {
-  buff->sock->DriverQuery(events);
+  return buff->sock->DriverQuery(events);
 }
 
 void SocketAsyncImpl::DriverOnReadable()
